@@ -6,11 +6,14 @@
     (C02_chain_selects_first_true, C02_all_false_reaches_else, C02_all_false_without_else_continues_after_chain): the
     conditions are evaluated in order, each from the state its predecessor's evaluation left, the walk stops at the first
     true one and enters exactly its block; with C02_after_a_branch_the_rest_is_skipped (the block's normal end falls on the
-    chain's next else, which jumps behind the chain) this is the property for every chain, context and history.  Still
-    stream-only: that the selected block's own statements, when they end normally, arrive at that else (the sequencing of
-    arbitrary statements inside a block; structured semantics R of DESIGN.md). *)
+    chain's next else, which jumps behind the chain) this is the property for every chain, context and history.
+    Proofs/BlockRun.v closes the last gap: the selected block RUNS ALONE (C02_a_block_runs_alone) -- whatever it contains,
+    every statement executed after its opening brace is one of its own until the machine leaves through its closing
+    brace (arriving right behind it -- on the chain's next else, or behind the chain -- with the loop stack and the
+    scope height it had at the opening brace) or by the break / continue of a loop that was open before (or with an
+    error); it never lands in another branch. *)
 From Pakhi Require Import Base Float64 Syntax Tables Lexer Interp.
-From Pakhi.Proofs Require Import Control ChainWalk.
+From Pakhi.Proofs Require Import Control ChainWalk Frames WF WFOps FrameInv Shape BlockRun ChainRun.
 Local Open Scope nat_scope.
 
 (* a whole chain: conditions c_1 .. c_k false, c_{k+1} true -- k+1 statements later the machine is at the opening brace of
@@ -97,6 +100,69 @@ Theorem C02_non_boolean_condition_is_error : forall code fuel m c p v m1, stmt_a
   interp code (S fuel) m = fail_at ERuntime (expr_pos c) m1.
 Proof. exact if_non_boolean. Qed.
 Print Assumptions C02_non_boolean_condition_is_error.
+
+(** the selected block runs alone.  [inblk a z L0 m]: the position is after the opening brace at [a] and before [z], the
+    position behind the closing brace; the loops entered since lie inside (a, z), below them the loop stack [L0] of the
+    moment of entry.  [left_block]: at [z] with loop stack [L0], or at a break / continue with loop stack [L0]. *)
+Theorem C02_a_block_is_a_region : forall code pre p body q post, code = pre ++ FBlockStart p :: body ++ FBlockEnd q :: post ->
+  balanced body -> region code (length pre) (length pre + length body + 2).
+Proof. exact region_of_block. Qed.
+Print Assumptions C02_a_block_is_a_region.
+
+Theorem C02_through_the_opening_brace : forall code F a z p f m m',
+  finv code F m -> region code a z -> stmt_at code a = Some (FBlockStart p) -> m_pc m = a ->
+  interp code f m = Ok m' -> inblk a z (m_loops m) m' /\ exists outer, m_loops m = outer ++ f_lower F.
+Proof. exact block_enter. Qed.
+Print Assumptions C02_through_the_opening_brace.
+
+Theorem C02_a_block_runs_alone : forall code, code_ok code -> forall fuel F a z L0 outer,
+  frame_static code F -> region code a z -> L0 = outer ++ f_lower F ->
+  forall n m m', mwf code m -> finv code F m -> inblk a z L0 m -> steps code fuel n m = Ok m' ->
+  inblk a z L0 m' \/
+  exists k mk, k <= n /\ steps code fuel k m = Ok mk /\ left_block code a z L0 mk /\
+               forall j mj, j < k -> steps code fuel j m = Ok mj -> inblk a z L0 mj.
+Proof. exact block_run. Qed.
+Print Assumptions C02_a_block_runs_alone.
+
+Theorem C02_one_statement_inside_a_block : forall code, code_ok code -> forall F a z L0 outer f m m',
+  mwf code m -> finv code F m -> region code a z -> L0 = outer ++ f_lower F -> inblk a z L0 m ->
+  interp code f m = Ok m' ->
+  inblk a z L0 m' \/
+  (m_pc m' = z /\ m_loops m' = L0 /\ exists p, stmt_at code (m_pc m) = Some (FBlockEnd p)) \/
+  (m_loops m = L0 /\ exists p, stmt_at code (m_pc m) = Some (FBreak p) \/ stmt_at code (m_pc m) = Some (FContinue p)).
+Proof. exact block_step. Qed.
+Print Assumptions C02_one_statement_inside_a_block.
+
+Theorem C02_block_end_restores_the_scope_height : forall code F a z m0 m, finv code F m0 -> finv code F m ->
+  region code a z -> m_pc m0 = a -> m_pc m = z -> length (m_scopes m) = length (m_scopes m0).
+Proof. exact block_end_height. Qed.
+Print Assumptions C02_block_end_restores_the_scope_height.
+
+(** the property in one theorem: conditions c_1..c_k false and c_{k+1} true, inside any frame (function body or top level)
+    whose invariant holds -- it does at every statement boundary of every run, C03_frame_invariant_at_every_top_level_boundary,
+    interp_keeps_invariants --: after k+1 statements the machine is at the opening brace [a] of branch k+1, after k+2 inside
+    that branch, and from then on, for any number n of further statements, it is still inside the branch or it has left it
+    -- at [z], the position behind its closing brace (the chain's next else, or the statement after the chain), with the
+    loop stack it had at the opening brace, or at a break / continue of a loop around the chain -- having been inside the
+    branch at every statement before *)
+Theorem C02_chain_runs_the_selected_branch_alone : forall code, code_ok code -> forall fuel F fs b post m m' m1 pre,
+  frame_static code F -> mwf code m -> finv code F m ->
+  code = pre ++ false_prefix fs ++ br_code b ++ post ->
+  Forall (fun be => balanced (br_body (fst be))) fs -> balanced (br_body b) ->
+  m_pc m = length pre -> falses code fuel fs m m' ->
+  eval code fuel (br_c b) m' = Ok (VBool true, m1) ->
+  let a := length pre + length (false_prefix fs) + 1 in
+  let z := length pre + length (false_prefix fs) + length (br_code b) in
+  exists m2 m3,
+    steps code fuel (S (length fs)) m = Ok m2 /\ m_pc m2 = a /\ stmt_at code a = Some (FBlockStart (br_bp b)) /\
+    steps code fuel (S (S (length fs))) m = Ok m3 /\ inblk a z (m_loops m2) m3 /\
+    stmt_at code z = nth_error post 0 /\
+    forall n m4, steps code fuel n m3 = Ok m4 ->
+      inblk a z (m_loops m2) m4 \/
+      exists k mk, k <= n /\ steps code fuel k m3 = Ok mk /\ left_block code a z (m_loops m2) mk /\
+                   forall j mj, j < k -> steps code fuel j m3 = Ok mj -> inblk a z (m_loops m2) mj.
+Proof. exact chain_runs_the_selected_branch_alone. Qed.
+Print Assumptions C02_chain_runs_the_selected_branch_alone.
 
 (* non-vacuity: a three-way chain with an else is a [chain_tail] after its first else *)
 Example C02_chain_shape_exists : forall c p q,
